@@ -238,6 +238,21 @@ def run_check(pid, tier, seed, a, scratch, t0):
             json.dump({'property': pid, 'candidate': c, 'replay': rp}, f, indent=1, default=str)
         violations.append((c, path))
 
+    # a witness model (one concrete input per explored path) that makes the real tree fail an
+    # assertion of the concrete part of a harness is a reproduced violation as well
+    for w, rp in zip(witnesses, wit_rep):
+        for k, det in zip(rp.get('keys', []), rp.get('details', [])):
+            if k in open_keys:
+                known_hit[k] = open_keys[k]
+                continue
+            if k in seen_keys:
+                continue
+            seen_keys.add(k)
+            c = dict(w, key=k, detail=det)
+            path = os.path.join(VERIF, 'replays', pid, core.cand_hash(c) + '.json')
+            with open(path, 'w') as f:
+                json.dump({'property': pid, 'candidate': c, 'replay': rp}, f, indent=1, default=str)
+            violations.append((c, path))
     wit_ok = sum(1 for w, rp in zip(witnesses, wit_rep) if rp.get('error') is None and
                  sorted(rp.get('keys', [])) == [] and rp.get('tags_match', True))
     errors = [e for r in results for e in r['errors']] + [e for x in xh_results for e in x.get('errors', [])]
